@@ -72,7 +72,7 @@ pub fn gen_step(rng: &mut Rng, spec: &WorldSpec, serial: usize, allow_fail: bool
         let outs = (0..k)
             .map(|i| {
                 let fd = if rng.chance(1, 2) { 1 } else { 2 };
-                OutStep { fd, hex: hex(format!("r{} {} {} fd{} line{}\n", serial, cf.command, cf.target, fd, i).as_bytes()), pause_ms: 0 }
+                OutStep { fd, hex: hex(format!("r{} {} {} fd{} line{}\n", serial, cf.command, cf.target, fd, i).as_bytes()), pause_ms: 0, close: false }
             })
             .collect();
         behav.push(Behav { command: cf.command.clone(), target: cf.target.clone(), outs, code: 0, exit_pause_ms: 0 });
